@@ -298,6 +298,20 @@ rx_impl!(fibre::mpmc::rendezvous::RendezvousAsyncReceiver<Tk>, async = true, con
     ops = [TryRecv, RecvFut, Close, Clone, Convert, Len],
     feats = [rx_core, rx_fut_recv, obs, obs_full, cap_opt, rx_clone]);
 
+// ------------------------------------------------------------------ spmc broadcast
+tx_impl!(fibre::spmc::BoundedSyncSender<Tk>, async = false, conv = to_async,
+    ops = [TrySend, Send, TrySendBatch, TrySendBatchMut, SendBatch, SendBatchMut, Close, Convert, Len],
+    feats = [tx_core, tx_sync_send, tx_batch_try, tx_batch_sync, obs, obs_full, cap_usize]);
+tx_impl!(fibre::spmc::BoundedAsyncSender<Tk>, async = true, conv = to_sync,
+    ops = [TrySend, TrySendBatch, TrySendBatchMut, Close, Convert, Len],
+    feats = [tx_core, tx_batch_try, obs, obs_full, cap_usize]);
+rx_impl!(fibre::spmc::BoundedSyncReceiver<Tk>, async = false, conv = to_async,
+    ops = [TryRecv, Recv, RecvTimeout0, TryRecvBatch, TryRecvBatchMut, RecvBatch, RecvBatchMut, Close, Clone, Convert, Len],
+    feats = [rx_core, rx_sync_recv, rx_batch_try, rx_batch_sync, obs, obs_full, cap_usize, rx_clone]);
+rx_impl!(fibre::spmc::BoundedAsyncReceiver<Tk>, async = true, conv = to_sync,
+    ops = [TryRecv, TryRecvBatch, TryRecvBatchMut, PollNext, Close, Clone, Convert, Len],
+    feats = [rx_core, rx_batch_try, rx_stream, obs, obs_full, cap_usize, rx_clone]);
+
 // ------------------------------------------------------------------ oneshot (hand-written: send consumes the handle)
 pub struct OneTx(pub UnsafeCell<Option<fibre::oneshot::Sender<Tk>>>);
 impl Tx for OneTx {
@@ -367,9 +381,10 @@ pub enum Flavour {
     MpmcUnbounded,
     MpmcRendezvous,
     Oneshot,
+    SpmcBroadcast,
 }
 impl Flavour {
-    pub const ALL: [Flavour; 9] = [
+    pub const ALL: [Flavour; 10] = [
         Flavour::SpscBounded,
         Flavour::SpscRendezvous,
         Flavour::MpscBounded,
@@ -379,6 +394,7 @@ impl Flavour {
         Flavour::MpmcUnbounded,
         Flavour::MpmcRendezvous,
         Flavour::Oneshot,
+        Flavour::SpmcBroadcast,
     ];
     pub fn name(self) -> &'static str {
         match self {
@@ -391,6 +407,7 @@ impl Flavour {
             Flavour::MpmcUnbounded => "mpmc_unbounded",
             Flavour::MpmcRendezvous => "mpmc_rendezvous",
             Flavour::Oneshot => "oneshot",
+            Flavour::SpmcBroadcast => "spmc_broadcast",
         }
     }
     pub fn from_name(s: &str) -> Option<Flavour> {
@@ -399,20 +416,23 @@ impl Flavour {
     /// capacity semantics: Some(0) rendezvous, None unbounded
     pub fn caps(self) -> Vec<Option<usize>> {
         match self {
-            Flavour::SpscBounded | Flavour::MpscBounded | Flavour::MpmcBounded => vec![Some(1), Some(2), Some(3)],
+            Flavour::SpscBounded | Flavour::MpscBounded | Flavour::MpmcBounded | Flavour::SpmcBroadcast => vec![Some(1), Some(2), Some(3)],
             Flavour::SpscRendezvous | Flavour::MpscRendezvous | Flavour::MpmcRendezvous => vec![Some(0)],
             Flavour::MpscUnbounded | Flavour::MpmcUnbounded => vec![None],
             Flavour::Oneshot => vec![Some(1)],
         }
     }
     pub fn multi_tx(self) -> bool {
-        !matches!(self, Flavour::SpscBounded | Flavour::SpscRendezvous)
+        !matches!(self, Flavour::SpscBounded | Flavour::SpscRendezvous | Flavour::SpmcBroadcast)
     }
     pub fn multi_rx(self) -> bool {
-        matches!(self, Flavour::MpmcBounded | Flavour::MpmcUnbounded | Flavour::MpmcRendezvous)
+        matches!(self, Flavour::MpmcBounded | Flavour::MpmcUnbounded | Flavour::MpmcRendezvous | Flavour::SpmcBroadcast)
     }
     pub fn is_oneshot(self) -> bool {
         self == Flavour::Oneshot
+    }
+    pub fn is_broadcast(self) -> bool {
+        self == Flavour::SpmcBroadcast
     }
 }
 
@@ -450,6 +470,7 @@ pub fn make(fl: Flavour, cap: Option<usize>, tx_async: bool, rx_async: bool) -> 
         Flavour::MpmcRendezvous => {
             pair!(fibre::mpmc::rendezvous::rendezvous::<Tk>(), fibre::mpmc::rendezvous::rendezvous_async::<Tk>())
         }
+        Flavour::SpmcBroadcast => pair!(fibre::spmc::bounded::<Tk>(c), fibre::spmc::bounded_async::<Tk>(c)),
         Flavour::Oneshot => {
             let (t, r) = fibre::oneshot::oneshot::<Tk>();
             (Box::new(OneTx(UnsafeCell::new(Some(t)))), Box::new(OneRx(r)))
